@@ -537,6 +537,14 @@ impl<T: TypeConfig> RaftRoleState for LeaderState<T> {
     ) -> Result<()> {
         if self.commit_index() < new_commit_index {
             debug!("update_commit_index to: {:?}", new_commit_index);
+            #[cfg(feature = "verif-hooks")]
+            crate::verif::emit(crate::verif::VerifEvent::Commit {
+                node: self.node_id(),
+                leader: true,
+                term: self.current_term(),
+                old: self.commit_index(),
+                new: new_commit_index,
+            });
             self.shared_state.commit_index = new_commit_index;
         } else {
             warn!(
@@ -3886,6 +3894,14 @@ impl<T: TypeConfig> LeaderState<T> {
         ctx: &RaftContext<T>,
     ) {
         for (req, sender) in read_batch {
+            #[cfg(feature = "verif-hooks")]
+            crate::verif::emit(crate::verif::VerifEvent::ReadServed {
+                node: self.node_id(),
+                path: "raft_cmd",
+                policy: "linearizable",
+                term: self.current_term(),
+                lease: 0,
+            });
             let results = ctx
                 .handlers
                 .state_machine_handler
@@ -3903,6 +3919,14 @@ impl<T: TypeConfig> LeaderState<T> {
         ctx: &RaftContext<T>,
     ) {
         while let Some(entry) = self.pending_lease_reads.pop_front() {
+            #[cfg(feature = "verif-hooks")]
+            crate::verif::emit(crate::verif::VerifEvent::ReadServed {
+                node: self.node_id(),
+                path: "raft_cmd_pending",
+                policy: "lease",
+                term: self.current_term(),
+                lease: 0,
+            });
             let results = ctx
                 .handlers
                 .state_machine_handler
@@ -4008,6 +4032,14 @@ impl<T: TypeConfig> LeaderState<T> {
     ) -> Result<()> {
         if self.is_lease_valid() {
             // Lease valid - serve immediately
+            #[cfg(feature = "verif-hooks")]
+            crate::verif::emit(crate::verif::VerifEvent::ReadServed {
+                node: self.node_id(),
+                path: "raft_cmd",
+                policy: "lease",
+                term: self.current_term(),
+                lease: 0,
+            });
             let results = ctx
                 .handlers
                 .state_machine_handler
@@ -4023,6 +4055,14 @@ impl<T: TypeConfig> LeaderState<T> {
                     now_ms(),
                     ctx.node_config().raft.read_consistency.lease_duration_ms,
                 );
+                #[cfg(feature = "verif-hooks")]
+                crate::verif::emit(crate::verif::VerifEvent::ReadServed {
+                    node: self.node_id(),
+                    path: "raft_cmd_single_voter",
+                    policy: "lease",
+                    term: self.current_term(),
+                    lease: 0,
+                });
                 let results = ctx
                     .handlers
                     .state_machine_handler
@@ -4058,6 +4098,14 @@ impl<T: TypeConfig> LeaderState<T> {
         ctx: &RaftContext<T>,
     ) {
         // Eventual consistency: serve immediately without any verification
+        #[cfg(feature = "verif-hooks")]
+        crate::verif::emit(crate::verif::VerifEvent::ReadServed {
+            node: self.node_id(),
+            path: "raft_cmd",
+            policy: "eventual",
+            term: self.current_term(),
+            lease: 0,
+        });
         let results = ctx
             .handlers
             .state_machine_handler
